@@ -12,6 +12,12 @@ structure S where
   model : St := {}
   started : Bool := false
   poolShares : FMap String := []     -- by share denom: the pool's recorded total shares after the previous block
+  /-- Eden the users have put into vesting (successful cm.vest of ueden) minus Eden handed back by cancels, since the history began -/
+  edenInVesting : Int := 0
+  /-- ELYS minted by the users' own ClaimVesting transactions since the history began -/
+  elysReleased : Int := 0
+  /-- the vesting of Eden has been pointed at another denom at some time (governance): the Eden ↔ ELYS balance is then not judged -/
+  vestRepointed : Bool := false
   deriving Inhabited
 
 def nameOf (s : S) (addr : String) : String := match s.names.find? (fun p => p.1 == addr) with | some p => p.2 | none => addr
@@ -80,6 +86,19 @@ def handle (s : S) (i : Nat) (j : Json) : S × List Json :=
       | some p => [verdictViol i "C15.share_paired" (Json.mkObj [("pool", Json.num p.id), ("supplyChange", mkInt (st.obs.supply.get p.shareDenom - s.model.supply.get p.shareDenom)),
                      ("poolTotalSharesChange", mkInt (p.shares - s.poolShares.get p.shareDenom))])]
       | none => [])
+    -- "the native token's supply increases only through vesting releases": what the users' claims have released so far is covered by the
+    -- Eden they have given up for it — vested, and not handed back by a cancel (the worlds start with no vesting entries)
+    let okAmt (t : TxObs) : Int := if t.code == 0 && (fStr? t.f "denom").getD "" == "ueden" then (fInt? t.f "amt").getD 0 else 0
+    let vestedNow := (st.txs.filter (fun t => t.kind == "cm.vest")).foldl (fun a t => a + okAmt t) 0
+    let cancelledNow := (st.txs.filter (fun t => t.kind == "cm.cancelVest")).foldl (fun a t => a + okAmt t) 0
+    let releasedNow := (st.txs.filter (fun t => t.kind == "cm.claimVesting")).foldl (fun a t =>
+      a + (t.moves.filter (fun m => m.kind == "mint" && m.denom == "uelys")).foldl (fun b m => b + m.amt) 0) 0
+    let edenIn := s.edenInVesting + vestedNow - cancelledNow
+    let released := s.elysReleased + releasedNow
+    let repointed := s.vestRepointed || ((fld j "shocks").getArr?.toOption.getD #[]).toList.any (fun x => (x.getStr?.toOption.getD "").startsWith "commitment.EdenVestsInto")
+    let viols := viols ++ (if !repointed && released > edenIn then
+      [verdictViol i "C15.native_released_le_eden_given_up" (Json.mkObj [("elysReleasedByClaims", mkInt released), ("edenVestedMinusCancelled", mkInt edenIn)])] else [])
+    let s := { s with edenInVesting := edenIn, elysReleased := released, vestRepointed := repointed }
     let vs := diffs ++ viols
     ({ s with model := { supply := st.obs.supply }, poolShares := st.obs.ammPools.map (fun p => (p.shareDenom, p.shares)) }, if vs.isEmpty then [verdictOk i] else vs)
   | some "stats" => (s, [])
